@@ -149,6 +149,8 @@ func cmdCLI(args []string) {
 				flags = append(flags, "-summary")
 			case "longSummary":
 				flags = append(flags, "-longSummary")
+			case "bothSummaries":
+				flags = append(flags, "-summary", "-longSummary")
 			}
 			flags = append(flags, "-format", s.Fmt)
 			// ---- inputs
@@ -203,6 +205,7 @@ func cmdCLI(args []string) {
 			}
 			var libSets []map[string]interface{}
 			var libCounts []map[string]int
+			var libNames []map[string][]string
 			for ii := range ders {
 				t := &Target{Kind: kinds[ii], DER: ders[ii]}
 				ok := false
@@ -212,7 +215,7 @@ func cmdCLI(args []string) {
 					t.CRL, ok, _ = corpus.ParseCRL(ders[ii])
 				}
 				if !ok || !libOK {
-					libSets, libCounts = append(libSets, nil), append(libCounts, nil)
+					libSets, libCounts, libNames = append(libSets, nil), append(libCounts, nil), append(libNames, nil)
 					continue
 				}
 				rs, _, _ := runSet(t, libReg)
@@ -221,12 +224,14 @@ func cmdCLI(args []string) {
 				json.Unmarshal(b, &dec)
 				libSets = append(libSets, dec)
 				cnt := map[string]int{"info": 0, "warn": 0, "error": 0, "fatal": 0}
-				for _, r := range rs.Results {
+				nm := map[string][]string{}
+				for name, r := range rs.Results {
 					if _, ok := cnt[r.Status.String()]; ok {
 						cnt[r.Status.String()]++
+						nm[r.Status.String()] = append(nm[r.Status.String()], name)
 					}
 				}
-				libCounts = append(libCounts, cnt)
+				libCounts, libNames = append(libCounts, cnt), append(libNames, nm)
 			}
 			g.SetConfiguration(lint.NewEmptyConfig())
 			// ---- observed output
@@ -247,20 +252,21 @@ func cmdCLI(args []string) {
 					printed++
 				}
 			} else {
-				var cur map[string]int
-				for _, ln := range strings.Split(so.String(), "\n") {
-					if strings.HasPrefix(ln, "| LEVEL") {
-						cur = map[string]int{}
-						printed++
-					}
-					if m := tableRow.FindStringSubmatch(ln); m != nil && cur != nil {
-						n, _ := strconv.Atoi(m[2])
-						cur[m[1]] = n
-						if len(cur) == 4 {
-							if printed-1 < len(libCounts) && !reflect.DeepEqual(cur, libCounts[printed-1]) {
-								match = false
-							}
-						}
+				// tables: one per input (two with both summary flags); each must have exactly the four level rows, in order, with the
+				// library's counts, and - in the long form - exactly the names of the lints that reported that level
+				per := 1
+				if s.Mode == "bothSummaries" {
+					per = 2
+				}
+				tables := parseTables(so.String())
+				printed = len(tables) / per
+				if len(tables)%per != 0 {
+					junk = true
+				}
+				for ti, tb := range tables {
+					ii := ti / per
+					if ii >= len(libCounts) || libCounts[ii] == nil || !tb.wellFormed(libCounts[ii], libNames[ii]) {
+						match = false
 					}
 				}
 			}
@@ -280,6 +286,75 @@ func cmdCLI(args []string) {
 	w.Close()
 	os.RemoveAll(work)
 	ev.WriteJSON(out("summary.json"), ev.M{"scenarios": len(scns), "launches": launches, "classes": len(classes), "sample": scns[len(scns)/2]})
+}
+
+type cliTable struct {
+	long   bool
+	levels []string
+	counts []int
+	names  [][]string
+}
+
+var tableCont = regexp.MustCompile(`^\|\s*\|\s*\|\s*(\S+)\s*\|`)
+var tableRowLong = regexp.MustCompile(`^\|\s*(info|warn|error|fatal)\s*\|\s*(\d+)\s*\|\s*(\S+)\s*\|`)
+
+func parseTables(out string) []*cliTable {
+	var tables []*cliTable
+	var cur *cliTable
+	for _, ln := range strings.Split(out, "\n") {
+		if strings.HasPrefix(ln, "| LEVEL") {
+			cur = &cliTable{long: strings.Contains(ln, "DETAILS")}
+			tables = append(tables, cur)
+			continue
+		}
+		if cur == nil {
+			continue
+		}
+		if m := tableRowLong.FindStringSubmatch(ln); m != nil && cur.long {
+			n, _ := strconv.Atoi(m[2])
+			cur.levels, cur.counts = append(cur.levels, m[1]), append(cur.counts, n)
+			if m[3] == "-" {
+				cur.names = append(cur.names, nil)
+			} else {
+				cur.names = append(cur.names, []string{m[3]})
+			}
+		} else if m := tableRow.FindStringSubmatch(ln); m != nil {
+			n, _ := strconv.Atoi(m[2])
+			cur.levels, cur.counts, cur.names = append(cur.levels, m[1]), append(cur.counts, n), append(cur.names, nil)
+		} else if m := tableCont.FindStringSubmatch(ln); m != nil && cur.long && len(cur.names) > 0 {
+			cur.names[len(cur.names)-1] = append(cur.names[len(cur.names)-1], m[1])
+		}
+	}
+	return tables
+}
+
+func (t *cliTable) wellFormed(want map[string]int, names map[string][]string) bool {
+	if !reflect.DeepEqual(t.levels, []string{"info", "warn", "error", "fatal"}) {
+		return false
+	}
+	for i, lv := range t.levels {
+		if t.counts[i] != want[lv] {
+			return false
+		}
+		if t.long {
+			// one detail line per counted result; long lint names are cut to the column width, so names are compared as prefixes
+			if len(t.names[i]) != want[lv] {
+				return false
+			}
+			for _, shown := range t.names[i] {
+				found := false
+				for _, full := range names[lv] {
+					if strings.HasPrefix(full, shown) {
+						found = true
+					}
+				}
+				if !found {
+					return false
+				}
+			}
+		}
+	}
+	return true
 }
 
 func firstLine(s string) string {
